@@ -382,6 +382,10 @@ def wide_pool(w):
     for k in (0, 1, 3, w - 21, w - 20, w - 19, w - 1):
         pool.append(cellsof("p" * k + " " * (w - k)))
         pool.append(cellsof("p" * k))
+    # single-column characters that str methods treat as whitespace but a terminal shows as themselves
+    pool.append(cellsof("pp\xa0"))
+    pool.append(cellsof("\u1680"))
+    pool.append(cellsof("q\u2003\u2003") + cellsof("\xa0", RED) + cellsof("\x85"[:0]))
     pool.append(cellsof("ppp") + cellsof(" " * (w - 3), RED))
     pool.append(cellsof("q" * (w - 22)) + cellsof(" ", RED) + cellsof(" " * 21))
     return pool
@@ -559,6 +563,50 @@ def sessions_long(args):
     return acc.export()
 
 
+def sessions_huge(args):
+    """Screens far beyond small: 140 x 12 and 130 x 3 (rows 128 and up exist), 100 x 60 with every cell formatted differently from
+    its neighbour (one render writes more than 131 072 characters): a full render over the marker screen, a second render that
+    changes every third row / the bottom rows / nothing, cursor in a bottom corner."""
+    tier, seed, hide, h, w, rich = args
+    acc = Acc(seed=seed, sample_stride=7)
+    world = World(hide)
+    world.initial(h, w)
+    term = world.proxy.term
+    pals = [(), RED, (("bg", 44), ("bold", True), ("fg", 33)), (("bg", 42), ("fg", 35), ("underline", True)), (("bold", True), ("invert", True))]
+
+    def make(step, which):
+        rows = []
+        for r in range(h):
+            changed = step == 0 or which == "all" or (which == "thirds" and r % 3 == 0) or (which == "bottom" and r >= h - 14)
+            tag = (step if changed else 0)
+            text = ("%d:%d " % (r, tag) * w)[: w if r % 4 else max(0, w - 2)]
+            if rich:
+                rows.append(tuple((c, pals[(r + x + tag) % len(pals)]) for x, c in enumerate(text)))
+            else:
+                rows.append(tuple((c, pals[(r + tag) % 2]) for c in text))
+        return tuple(rows)
+
+    step = 0
+    for which in ("all", "thirds", "bottom", "none", "all"):
+        arr = make(step, which)
+        cur = (h - 1, w - 1) if step % 2 == 0 else (h - 1, 0)
+        term.scrolls = 0
+        sb = len(term.scrollback)
+        case = {"hide_cursor": hide, "size": [h, w], "family": "huge screen", "per_cell_formatting": rich, "step": step, "rows_changed": which, "cursor": list(cur)}
+        acc.case(True, key=("huge", hide, h, w, rich, step), sample=case)
+        acc.transitions += 1
+        try:
+            world.win.render_to_terminal(build_array(arr), cur)
+        except Exception as ex:  # noqa
+            acc.failure("C02:render_raises:" + type(ex).__name__, case, repr(ex))
+            break
+        if not check_screen(acc, term, arr, cur, hide, case, sb):
+            break
+        step += 1
+    world.proxy.close()
+    return acc.export()
+
+
 def sessions_two_windows(args):
     """Two FullscreenWindow objects on two terminals, alive at the same time, rendered alternately (and in runs of 1..3 renders each):
     what one window shows must not depend on the other (state kept on the class or in the module would be shared)."""
@@ -600,6 +648,9 @@ def sessions_two_windows(args):
 
 def run(ctx):
     rep = Report()
+    huge = [(ctx.tier, ctx.seed, hide, h, w, rich) for hide in (True, False) for (h, w, rich) in ((140, 12, False), (130, 3, True), (100, 60, True), (129, 40, False))]
+    for d in ctx.pmap(sessions_huge, huge):
+        rep.merge(d, "screens_of_100_to_140_rows")
     for d in ctx.pmap(sessions_two_windows, [(ctx.tier, ctx.seed, hide, p, 8) for hide in (True, False) for p in range(8)]):
         rep.merge(d, "two_windows_alive_at_once")
     for d in ctx.pmap(sessions_long, [(ctx.tier, ctx.seed, hide, stride) for hide in (True, False) for stride in (1, 7, 11, 13)]):
